@@ -58,7 +58,7 @@ def spec_env():
     import specs.wire as W
     for m in (P, W):
         env.update({k: v for k, v in vars(m).items() if not k.startswith('__')})
-    for name in ('gen_parse', 'codec', 'hashspec', 'small', 'murmur', 'group', 'state'):
+    for name in ('gen_parse', 'codec', 'hashspec', 'natparse', 'small', 'murmur', 'group', 'state'):
         try:
             m = importlib.import_module('specs.' + name)
             env.update({k: v for k, v in vars(m).items() if not k.startswith('__')})
